@@ -90,5 +90,13 @@ def refSolveMixed (sub : Model (Ext K) → SubVerdict K) (m : Model (Ext K)) : M
     | some (v, w) => .optimal v w
     | none => .infeasible
 
+/-- the sub-solver for residuals WITHOUT variables (every used declaration was enumerated): evaluate once. -/
+def subConst (m' : Model (Ext K)) : SubVerdict K :=
+  if srcFeasible m' (lookup []) then
+    match eval (lookup []) m'.objective with
+    | some v => .optimal v []
+    | none => .unknown
+  else .infeasible
+
 end Ref
 end Rooc
